@@ -136,6 +136,7 @@ class Journal:
 
     def __init__(self):
         self.events = []
+        self.threads = []    # thread name per event (parallel list)
         self.fault_at = None   # index of the seam call to fail (E4)
         self.fault_exc = None
         self.seam_calls = 0
@@ -151,6 +152,7 @@ class Journal:
 
     def rec(self, *ev):
         self.events.append(ev)
+        self.threads.append(threading.current_thread().name)
 
 
 class _RecMixin:
